@@ -151,7 +151,10 @@ def project(b: Built, probe_dids=(), pre_nids=None) -> dict:
             else:
                 row = [0] * b.mk
                 for k, v in m.items():
-                    ki = META_KEY_IDS.get(k)
+                    if hasattr(fl, "meta_key_id"):      # recorder flavour: dynamic registries
+                        ki, v = fl.meta_key_id(k), fl.meta_val(v)
+                    else:
+                        ki = META_KEY_IDS.get(k)
                     if ki is None or ki > b.mk or not isinstance(v, int):
                         row = [-2] * b.mk
                         break
